@@ -1176,7 +1176,11 @@ impl Engine for Cfi {
     fn rule(&self) -> String {
         "SymbolFile::walk_frame on a generated CFI-only symbol file with a mock FrameWalker vs the Lean model \
          (MdModel.Cfi.walkFrameO) and vs an independent tree evaluation written from the walker.rs documentation; \
-         non-trivial = the record covers the lookup address, the rules parse, and some rule has an operator"
+         non-trivial = the record covers the lookup address, the rules parse, and some rule has an operator; \
+         `cfi cw` cases: the REAL CfiStackWalker<C> of minidump-unwind, received as &mut dyn FrameWalker by a SymbolProvider \
+         of the harness inside walk_stack, driven by a script of trait-method calls (incl. the real walk_with_stack_cfi) on \
+         x86/amd64/arm/arm64/arm64old/mips32/mips64 vs MdModel.CfiWalker and vs the mock twin; non-trivial = walk_frame was \
+         reached with a non-empty script"
             .into()
     }
     fn exhaustive_part(&self) -> Option<String> {
